@@ -1,5 +1,5 @@
 """C03 -- C standard mode writes/reads the same bytes as the specification and Python."""
-from .. import cdrive, common, gen, tlc
+from .. import cdrive, common, gen, tlc, usmall
 from ..report import Report
 from . import ccopycases, cwire, designlevel, pywire
 
@@ -61,6 +61,15 @@ def main(tier, replay=None):
                     if not ok:
                         idx = int(why.split(":")[0]) - 1
                         rep.decide({"event": tr["events"][idx], "cflags": cflags}, "BpCopyBufferBits: " + why, [])
+            # direction spec -> code: the complete universe U_small with its basis values, written by TLC
+            builder = cdrive.CBuilder(scratch, cflags=("-O1",))
+            ucases = [cwire.CCase("c03-usmall-%d" % k, prog, vals)
+                      for k, prog, vals in usmall.programs(rep, tier, "generated C + lib/c (gcc -O1)")]
+            for c, lib in cwire.prepare(ucases, scratch, builder):
+                if lib is not None:
+                    cwire.drive_case(c, lib, worker, want=("enc", "dec", "size"))
+                rep.feature("u_small")
+            pywire.validate_and_decide(rep, ucases, sig_fn=sigs, count_events=("CEncode", "CDecode"))
             for ci, (cflags, single_tu) in enumerate(configs):
                 builder = cdrive.CBuilder(scratch, cflags=cflags)
                 cases = make_cases(seed + 1000 * ci, n, nv, "c03-%s-%s" % ("".join(cflags), "tu1" if single_tu else "sep"),
